@@ -810,9 +810,20 @@ func contextAfterText(c context, s []byte) (context, int) {
 	}
 	// Save the link element's rel attribute value if we are parsing it for the first time.
 	// Only the first rel attribute counts: browsers ignore later duplicates.
-	if c.state == stateAttr && c.element.name == "link" && c.attr.name == "rel" && c.linkRel == "" {
-		if c.attr.ambiguousValue {
-			// The value contains an action or depends on a conditional, so the rel values are
+	// If conditional branches spelled the attribute name differently, the attribute is a rel
+	// attribute in some branches only.
+	maybeRel, onlyRel := c.attr.name == "rel", c.attr.name == "rel"
+	for _, name := range c.attr.names {
+		if name == "rel" {
+			maybeRel = true
+		} else {
+			onlyRel = false
+		}
+	}
+	if c.state == stateAttr && c.element.name == "link" && maybeRel && c.linkRel == "" {
+		if c.attr.ambiguousValue || !onlyRel {
+			// The value contains an action or depends on a conditional, or the attribute is not
+			// a rel attribute in every branch, so the rel values are
 			// unknown. A linkRel without any value keeps the href attribute at its default.
 			ret.linkRel = " "
 		} else {
